@@ -284,8 +284,18 @@ func c16Pairs(c *Ctx, pr *PropertyRun) {
 			detail = "layout " + fmt.Sprintf("%q", eu.consts)
 		}
 		if ok && pa.sameConst {
-			ok = len(eu.consts) > 0 && len(du.consts) > 0 && eu.consts[0] == du.consts[0]
-			detail = fmt.Sprintf("layouts %q / %q", eu.consts, du.consts)
+			// RFC 5545 §3.3.5 form 2 (date with UTC time): the layout is given by the RFC
+			ok = len(eu.consts) > 0 && len(du.consts) > 0 && eu.consts[0] == du.consts[0] && eu.consts[0] == "20060102T150405Z"
+			detail = fmt.Sprintf("layouts %q / %q (RFC 5545 form 2 is \"20060102T150405Z\")", eu.consts, du.consts)
+		}
+		// the decoder hands its input to the inverse primitive as it is: any
+		// transformation in between (trimming, case folding) makes texts the
+		// encoder can produce undecodable or decodes them to another value
+		if ok && du != nil {
+			ok = decoderInputUnaltered(dec, du.site)
+			if !ok {
+				detail += "; the decoder transforms its input before " + pa.decCall
+			}
 		}
 		r.Ob(ok)
 		r.Sample(map[string]interface{}{"primitive": pa.what, "encoder": pa.enc + " -> " + pa.encCall, "decoder": pa.dec + " -> " + pa.decCall, "constants": detail, "ok": ok})
@@ -350,6 +360,10 @@ func c16Pairs(c *Ctx, pr *PropertyRun) {
 			if ok {
 				ok = argIsIndexOf(at.site.Common().Args[0], 1)
 			}
+			// the status text is split as it is
+			if ok {
+				ok = decoderInputUnaltered(su, du.site)
+			}
 		}
 		r.Ob(ok)
 		if !ok {
@@ -357,6 +371,36 @@ func c16Pairs(c *Ctx, pr *PropertyRun) {
 		}
 	}
 	r.RequireRole("codec-pair", "etag-header-written", "etag-header-read")
+}
+
+// decoderInputUnaltered: some string argument of the call is the decoder's
+// byte-slice/string parameter through conversions only.
+func decoderInputUnaltered(dec *ssa.Function, site ssa.CallInstruction) bool {
+	isParam := func(v ssa.Value) bool {
+		for i := 0; i < 4; i++ {
+			switch x := v.(type) {
+			case *ssa.Convert:
+				v = x.X
+				continue
+			case *ssa.ChangeType:
+				v = x.X
+				continue
+			}
+			break
+		}
+		for _, p := range dec.Params {
+			if p == v {
+				return true
+			}
+		}
+		return false
+	}
+	for _, a := range site.Common().Args {
+		if isParam(a) {
+			return true
+		}
+	}
+	return false
 }
 
 // flowsIntoCall: v (or a phi/convert of it) is an argument of a call of name.
